@@ -8,6 +8,7 @@
 #include "bitserializer/types/std/memory.h"
 #include "bitserializer/types/std/vector.h"
 #include "bitserializer/types/std/bitset.h"
+#include "bitserializer/types/std/forward_list.h"
 namespace verif_inst {
 using namespace BitSerializer;
 // abstract array scope of some archive in load mode: only declarations - every call is a contract-only callee
@@ -23,5 +24,6 @@ bool load_optional(AbsLoadArrayScope& scope, std::optional<int>& v) { return Bit
 bool load_unique(AbsLoadArrayScope& scope, std::unique_ptr<int>& v) { return BitSerializer::Serialize(scope, v); }
 void load_bitset(AbsLoadArrayScope& scope, std::bitset<8>& cont) { BitSerializer::SerializeArray(scope, cont); }
 void load_vector_bool(AbsLoadArrayScope& scope, std::vector<bool>& cont) { BitSerializer::SerializeArray(scope, cont); }
+void load_forward_list(AbsLoadArrayScope& scope, std::forward_list<int>& cont) { BitSerializer::SerializeArray(scope, cont); }
 void load_vector(AbsLoadArrayScope& scope, std::vector<int>& cont) { BitSerializer::Detail::SerializeContainer(scope, cont); }
 }
